@@ -4,6 +4,8 @@ NOTES = ("Technique family: runtime monitoring and sanitizers. Every verdict is 
          "evidence files report what the monitors saw. See DESIGN.md.")
 
 ENGINES = [
+    {"name": "sanitizer lanes", "path": "lib/lanes.py + harness/src/engines/san.rs", "serves_properties": ["C20"],
+     "kind_free_text": "the concurrency, model, crash, fuzz-open, fault, liveness and direct-I/O engines rebuilt and re-run under AddressSanitizer, ThreadSanitizer (-Zbuild-std), Miri and valgrind memcheck; reports parsed from logs, deduplicated, classified by whether the access is in /repo/src"},
     {"name": "migrate", "path": "harness/src/engines/migrate.rs", "serves_properties": ["C15"],
      "kind_free_text": "differential monitor for migrate(): legacy sources from the real engine and from the independent codec; three-way comparison (independent decode of destination / independent recovery of source / real recovery of a source copy), file-system side effects, CLI exit codes"},
     {"name": "fuzzopen", "path": "harness/src/engines/fuzzopen.rs", "serves_properties": ["C17"],
@@ -38,6 +40,12 @@ _CONC_NOTE = ("Trusted: client-boundary history recording with one global logica
               "Probabilistic reach into each window, compensated by targeted delays; evidence counts, per scheduling point, arrivals / perturbed / windows in which another operation completed.")
 
 TEXT = {
+    "C20": {
+        "engine": "sanitizer lanes (asan, tsan, miri, memcheck)",
+        "technique": "compiler sanitizers (ASan, TSan), the Miri undefined-behaviour interpreter and valgrind memcheck watching the stress/model/crash/fault/fuzz engines; log parsing with in-scope classification",
+        "level_text": "Four lanes, one tool family per build: ASan over linearizability histories, reuse/scan/memlimit races (with delays inside the scanner's pinned section, at pin/pread/retire/release points), model programs, crash workloads + recoveries, fuzzed opens, contention scenarios (incl. drop with failing device) and the O_DIRECT / AlignedBuffer / allocator paths driven directly; TSan (std rebuilt) over the concurrent engines; Miri (exact use-after-free / out-of-bounds / uninitialised / misalignment detection, many seeds = schedules) over a scan-vs-update-vs-delete-vs-expiry program and a persistent write/flush/read/reopen program on synchronous I/O; memcheck over the io_uring path, uninitialised bytes reaching pwrite, and the direct-I/O paths. Any report whose faulting or racing access lies in /repo/src, or a fatal signal of an instrumented engine, is a violation; dependency-internal reports (scc's unsynchronised bucket counters under TSan) are listed only.",
+        "level_note": "Red-zone tools miss intra-object and reused-slot errors (the Miri lane mitigates this for what it runs); Miri runs without its aliasing model and race detector because the dependency scc 2.4.0 trips them; kernel reads of a prematurely freed io_uring buffer are invisible to every tool here; only reached code is judged.",
+    },
     "C15": {
         "engine": "migrate",
         "technique": "runtime differential monitoring of migrate() against an independent decoder, with file-system side-effect observation (hashes, directory listings, sentinels)",
